@@ -56,6 +56,21 @@ def eval_const_expr(expr, env):
     return int(eval(e, {"__builtins__": {}}, dict(env)))
 
 
+HARNESS = os.environ.get("VERIF_HARNESS_BIN") or os.path.join(os.path.dirname(os.path.abspath(__file__)), "..", ".cache",
+                                                               "harness-target", "debug", "gse_ops")
+
+
+def probe(lines):
+    """run op lines through the harness built from /repo (fallback when a source shape is not recognised)"""
+    import subprocess
+    if not os.path.exists(HARNESS):
+        raise GenError("shape not recognised in the source and no harness binary to probe the behaviour instead")
+    p = subprocess.run([HARNESS], input=("session probe\n" + "\n".join(lines) + "\n").encode(), stdout=subprocess.PIPE,
+                       stderr=subprocess.PIPE, timeout=120)
+    out = p.stdout.decode().split("\n")[1:]
+    return [o.split(" | ")[0] for o in out if o]
+
+
 def gen_consts():
     src = strip_comments(read("src/gse_standard.rs"))
     env = {}
@@ -89,22 +104,43 @@ def gen_consts():
     m = re.search(
         r"impl\s+MandatoryHeaderExtensionManager\s+for\s+SignalisationMandatoryExtensionHeaderManager\s*\{.*?match\s+id\s*\{(.*?)\}\s*\}\s*\}",
         ext, flags=re.S)
-    if not m:
-        raise GenError("SignalisationMandatoryExtensionHeaderManager::is_mandatory_header_id_known not found")
-    arms = m.group(1)
     sig = []
-    for am in re.finditer(r"([\w\s|]+?)=>\s*MandatoryHeaderExt::(\w+)(?:\((\d+)\))?\s*,", arms):
-        pats, kind, size = am.group(1), am.group(2), am.group(3)
-        for pat in [p.strip() for p in pats.split("|")]:
-            if pat == "_":
-                if kind != "Unknown":
-                    raise GenError("signalisation manager: default arm is not Unknown")
-                continue
-            if pat not in env:
-                raise GenError(f"signalisation manager: unknown id constant {pat}")
-            sig.append((env[pat], kind, int(size or 0)))
+    if m:
+        try:
+            for am in re.finditer(r"([\w\s|]+?)=>\s*MandatoryHeaderExt::(\w+)(?:\((\d+)\))?\s*,", m.group(1)):
+                pats, kind, size = am.group(1), am.group(2), am.group(3)
+                for pat in [p.strip() for p in pats.split("|")]:
+                    if pat == "_":
+                        if kind != "Unknown":
+                            raise GenError("signalisation manager: default arm is not Unknown")
+                        continue
+                    if pat not in env:
+                        raise GenError(f"signalisation manager: unknown id constant {pat}")
+                    sig.append((env[pat], kind, int(size or 0)))
+        except GenError:
+            sig = []
     if not sig:
-        raise GenError("signalisation manager: no known id found")
+        # behavioural fallback: feed a complete broadcast packet whose type field is each mandatory id to a
+        # decapsulator using the signalisation manager and read off how it was understood
+        lines = []
+        for i in range(256):
+            lines += ["dec_new 1 16 sig", "prov 16 0", "decap h:e00c%04x0102030405060708090a" % i]
+        out = probe(lines)
+        if len(out) != 3 * 256:
+            raise GenError("SignalisationMandatoryExtensionHeaderManager not recognised in the source and probing failed")
+        for i in range(256):
+            r = out[3 * i + 2]
+            if r.startswith("ok C"):
+                meta = r.split("meta=")[1].split(",")
+                exts = ",".join(meta[3:]).split(",")
+                first = exts[0]
+                n = 0 if first.endswith(":-") else len(first.split(":")[1]) // 2
+                if int(meta[1], 16) == i and len(exts) == 1:
+                    sig.append((i, "Final", n))
+                else:
+                    sig.append((i, "NonFinal", n))
+        sig.sort(reverse=True)
+        print("gen_lean: signalisation manager probed from decap (match arms not recognised in the source)")
 
     lines = [
         "/-! GENERATED by tools/gen_lean.py from /repo/src — do not edit. -/",
@@ -132,12 +168,22 @@ def gen_consts():
 
 def gen_crc():
     src = strip_comments(read("src/crc.rs"))
-    m = re.search(r"const\s+CRC_TAB\s*:\s*&\[u32\]\s*=\s*&\[(.*?)\];", src, flags=re.S)
-    if not m:
-        raise GenError("CRC_TAB not found in src/crc.rs")
-    vals = [int(v.replace("_", ""), 0) for v in re.findall(r"0x[0-9a-fA-F_]+|\b[0-9][0-9_]*\b", m.group(1))]
-    if len(vals) != 256:
-        raise GenError(f"CRC_TAB has {len(vals)} entries, 256 expected")
+    m = re.search(r"const\s+CRC_TAB\s*:\s*&?\[u32[^\]]*\]\s*=\s*&?\[(.*?)\];", src, flags=re.S)
+    vals = None
+    origin = "literal table of src/crc.rs"
+    if m:
+        vals = [int(v.replace("_", ""), 0) for v in re.findall(r"0x[0-9a-fA-F_]+|\b[0-9][0-9_]*\b", m.group(1))]
+        if len(vals) != 256:
+            vals = None
+    if vals is None:
+        # behavioural fallback: the CRC is XOR-linear, so  TAB[b] = crc(.., pdu=[b]) xor crc(.., pdu=[0])
+        out = probe(["crc h:%02x 0 0 -" % b for b in range(256)])
+        if len(out) != 256:
+            raise GenError("CRC_TAB not found in src/crc.rs and probing the calculator failed")
+        base = int(out[0], 16)
+        vals = [int(o, 16) ^ base for o in out]
+        origin = "probed from DefaultCrc (table literal not recognised in src/crc.rs)"
+        print("gen_lean: CRC table " + origin)
     # (the byte step itself is not extracted: it is modelled by hand and tied by the `crc` correspondence ops)
     lines = [
         "/-! GENERATED by tools/gen_lean.py from /repo/src/crc.rs — do not edit. -/",
@@ -154,19 +200,35 @@ def gen_crc():
 def gen_hlen():
     src = strip_comments(read("src/header_extension/mod.rs"))
     m = re.search(r"fn\s+optionnal_extension_data_size_from_hlen\s*\(.*?\{\s*match\s+h_len\s*\{(.*?)\}\s*\}", src, flags=re.S)
-    if not m:
-        raise GenError("optionnal_extension_data_size_from_hlen not found")
     arms = {}
     default = None
-    for am in re.finditer(r"(\w+)\s*=>\s*(Ok\((\d+)\)|Err\(HlenError::(\w+)\))\s*,", m.group(1)):
-        pat = am.group(1)
-        val = ("ok", int(am.group(3))) if am.group(3) is not None else ("err", am.group(4))
-        if pat == "_":
-            default = val
-        else:
-            arms[int(pat)] = val
-    if default is None or not arms:
-        raise GenError("H-LEN table arms could not be parsed")
+    if m:
+        for am in re.finditer(r"(\w+)\s*=>\s*(Ok\((\d+)\)|Err\(HlenError::(\w+)\))\s*,", m.group(1)):
+            pat = am.group(1)
+            val = ("ok", int(am.group(3))) if am.group(3) is not None else ("err", am.group(4))
+            if pat == "_":
+                default = val
+            elif pat.isdigit():
+                arms[int(pat)] = val
+    if default is None or len(arms) < 6:
+        # behavioural fallback: Extension::new(h << 8, data) succeeds for exactly the table's data length
+        arms, default = {0: ("err", "MandatoryHeader")}, ("err", "UnknownHLen")
+        lines = ["ext_new %04x c:0:%d" % (h << 8, n) for h in range(1, 8) for n in range(0, 12)]
+        out = probe(lines)
+        if len(out) != len(lines):
+            raise GenError("H-LEN table not recognised in the source and probing Extension::new failed")
+        k = 0
+        for h in range(1, 8):
+            oks = []
+            for n in range(0, 12):
+                if out[k].startswith("ok"):
+                    oks.append(n)
+                k += 1
+            if len(oks) == 1:
+                arms[h] = ("ok", oks[0])
+            elif len(oks) > 1:
+                raise GenError("Extension::new accepts several data lengths for H-LEN %d" % h)
+        print("gen_lean: H-LEN table probed from Extension::new (match arms not recognised in the source)")
 
     def lean(v):
         if v[0] == "ok":
